@@ -41,6 +41,9 @@ const (
 	teamKey = "example.com/team"
 	// shape of the only inputs on which the strict reading of the property text fails (see Properties/C19.v)
 	kfRelax = "lower-weight-pool-chosen-at-an-earlier-relaxation-level"
+	// same mechanism, other input shape: the outranking pool carries a PreferNoSchedule taint that the pod only
+	// tolerates after relaxation
+	kfSoftTaint = "lower-weight-pool-chosen-before-prefer-no-schedule-toleration"
 )
 
 var workerCounts = []int{1, 4, 16}
@@ -461,35 +464,87 @@ func runSolve(c *kit.Ctx, r *kit.Rand, w *world, pods []*corev1.Pod, jpods []sPo
 		}
 		o := perWorker[0][i]
 		bucketKey := "solve:" + kind + ":" + strings.SplitN(o, ":", 2)[0]
-		kf := ""
-		if strings.HasPrefix(o, "placed:") {
+		placed := strings.HasPrefix(o, "placed:")
+		if placed {
 			rank := w.rankOf(strings.TrimPrefix(o, "placed:"))
 			bucketKey += fmt.Sprintf(",rank=%s,levels=%s", lo.Ternary(rank == 0, "first", lo.Ternary(rank == 1, "second", "later")), lo.Ternary(len(jlevels) == 1, "1", ">1"))
-			// a pool that outranks the chosen one is feasible at a later relaxation level
-			for _, lv := range jlevels[1:] {
-				for name, out := range lv {
-					if out == "ok" && w.rankOf(name) >= 0 && w.rankOf(name) < rank && jlevels[0][name] != "ok" {
-						kf = kfRelax
-					}
-				}
-			}
-			if kf != "" {
-				bucketKey += ",outranking-pool-feasible-after-relaxation"
-			}
 		} else {
 			bucketKey += fmt.Sprintf(",any-pool-ok=%v", anyOK)
 		}
-		c.Count(bucketKey)
 		key := ""
-		if strings.HasPrefix(o, "placed:") && w.rankOf(strings.TrimPrefix(o, "placed:")) > 0 || o == "deferred" {
+		if placed && w.rankOf(strings.TrimPrefix(o, "placed:")) > 0 || o == "deferred" {
 			key = "S:" + w.gPools() + kit.GList(glevels)
 		}
-		sc := sCase{Kind: kind, KfKey: kf, Strict: w.strict, Pools: w.pools, Pod: jpods[i], Levels: jlevels, Observed: jobs}
+		sc := sCase{Kind: kind, Strict: w.strict, Pools: w.pools, Pod: jpods[i], Levels: jlevels, Observed: jobs}
 		if len(pods) > 1 {
 			sc.Batch = jpods
 		}
 		c.AddCase(fmt.Sprintf("CaseSolve %s %s %s", w.gPools(), kit.GList(glevels), kit.GList(gobs)), sc, key)
+		if !placed {
+			c.Count(bucketKey)
+			continue
+		}
+		// The strict reading of the property text, as a case of its own.  It carries the known-finding key only when
+		// (1) every worker count placed the pod on the same pool, (2) that pool is the one the per-level rule predicts,
+		// (3) judged at the level of the placement every outranking pool is infeasible, and (4) some outranking pool
+		// is feasible only at a later relaxation level of THIS pod (preferred node affinity / several required terms,
+		// or the PreferNoSchedule toleration that relaxation adds).
+		sc.Kind = kind + "-strict"
+		sc.KfKey = w.kfFor(o, jobs, jlevels, jpods[i])
+		if sc.KfKey != "" {
+			bucketKey += ",outranking-pool-feasible-only-after-relaxation(" + sc.KfKey[:12] + ")"
+		}
+		c.Count(bucketKey)
+		c.AddCase(fmt.Sprintf("CaseStrict %s %s %s", w.gPools(), kit.GList(glevels), kit.GList(gobs)), sc, "")
 	}
+}
+
+// kfFor decides whether the strict-reading case of a placed pod is an instance of the known finding.
+func (w *world) kfFor(o string, jobs map[string]string, levels []map[string]string, pod sPod) string {
+	for _, x := range jobs {
+		if x != o {
+			return ""
+		}
+	}
+	chosen := strings.TrimPrefix(o, "placed:")
+	rank := w.rankOf(chosen)
+	if rank < 0 || len(levels) < 2 {
+		return ""
+	}
+	outranking := func(lv map[string]string, want string) bool { // some pool that outranks the chosen one answers [want]
+		for name, out := range lv {
+			if r := w.rankOf(name); r >= 0 && r < rank && out == want {
+				return true
+			}
+		}
+		return false
+	}
+	// the level at which the per-level rule places the pod: the first level at which any eligible pool is not "err"
+	at := -1
+	for k, lv := range levels {
+		for name, out := range lv {
+			if w.rankOf(name) >= 0 && out != "err" && at < 0 {
+				at = k
+			}
+		}
+		if at >= 0 {
+			break
+		}
+	}
+	if at < 0 || levels[at][chosen] != "ok" || outranking(levels[at], "ok") || outranking(levels[at], "reserved") {
+		return "" // not explained by the per-level rule: must stay a violation
+	}
+	later := false
+	for _, lv := range levels[at+1:] {
+		later = later || outranking(lv, "ok")
+	}
+	if !later {
+		return ""
+	}
+	if len(pod.Preferred) > 0 || len(pod.Required) > 1 {
+		return kfRelax
+	}
+	return kfSoftTaint
 }
 
 // pipeline follows every new NodeClaim of a Solve result through TruncateInstanceTypes and ToNodeClaim, the way
